@@ -607,6 +607,19 @@ def r16_pairing(idx, r):
     pairing_rule(idx, r, ["armi.operators", "armi.interfaces", "armi.utils"], 150)
 
 
+def r18_coupling_switch(idx, r):
+    """`Operator.couplingIsActive` answers from the tightCoupling setting alone (clause of R06.8): the per-node coupled pass - which also
+    writes the node to the database when coupling is on - must not be skipped because no interface happens to carry a coupler, or because the
+    cycle is exempt from convergence checks."""
+    from ..report import Only
+    from .c06 import r8_every_node_written
+    r8_every_node_written(idx, Only(r, ["couplingIsActive"]))
+    f = idx.method("armi.operators.operator.Operator", "couplingIsActive")
+    rets = [x for x in walk_local(f.node) if isinstance(x, ast.Return)]
+    r.require(len(rets) == 1 and "interfaces" not in norm(rets[0].value) and "cyclesSkip" not in norm(rets[0].value), "couplingIsActive:the-setting-alone", f, node=rets[0] if rets else None,
+              msg="couplingIsActive depends on more than the tightCoupling setting: with coupling switched on, nodes at which it answers False get neither their coupled interaction nor their database write")
+
+
 def run(idx, chk):
     chk.explanation = (
         "C15: the operator's main, cycle and node loops, _interactAll, the six interactAllX entry points, getActiveInterfaces, the tight "
@@ -645,3 +658,5 @@ def run(idx, chk):
                  necessary="(cycle, node) reach every hook in that order; exclusions are forwarded")
     chk.run_rule("R15.17", "a tight coupler is built whenever one is defined; its numeric entries are never tested for truth", lambda r: r17_zero_tolerance_is_a_tolerance(idx, r), floor=2,
                  necessary="the coupled iteration of a node runs until every defined coupler has converged or the cap is reached")
+    chk.run_rule("R15.18", "couplingIsActive answers from the tightCoupling setting alone", lambda r: r18_coupling_switch(idx, r), floor=2,
+                 necessary="every enabled interface gets its coupled interaction at every node when coupling is on")
